@@ -151,7 +151,7 @@ def check(pid, tier, seed):
             # known finding F4 (C01): the library keeps the first consulted drop-in although it is shadowed; the tool
             # has to show what the LIBRARY returns, so the shadowed file's unique keys are expected here
             l, rr = x["log"][0]
-            for sec, on in (("", x["shp"][1] in "bn"), ("S", x["shp"][1] in "bs")):
+            for sec, on in (("", x["shp"][1] in "bnh"), ("S", x["shp"][1] in "bs")):
                 if on:
                     want.add((sec, "U%d%d" % (l, rr), ("1",)))
         if any(tr[0] == "" for tr in want) or len({tr[0] for tr in want}) >= 2 or x["bad"]:
